@@ -256,7 +256,9 @@ class WrapModel:
                 text = fields[names.index("text")]
                 allow = fields[names.index("allow_overflow")]
                 width = fields[names.index("width")]
-                ok.pc += [z3.Or(allow.e, z3.ULE(newlen.e, width.e)), z3.ULE(extra.e, U(1 << 20)), z3.ULE(newlen.e, U(1 << 21))]
+                # the line in progress fits afterwards, with or without overflow (decided on the MIR by wrap_hard_wrap);
+                # only lines that were flushed may be wider, and only when overflow is allowed
+                ok.pc += [z3.ULE(newlen.e, width.e), z3.ULE(extra.e, U(1 << 20)), z3.ULE(newlen.e, U(1 << 21))]
                 lv, wv = line.fields[0], word.fields[0]
                 # content (when tracked): the word's elements follow the line's, in order, somewhere on the emitted lines / the new line
                 nlv = _app(lv, *(wv.elems if isinstance(wv, VVec) else ())) if isinstance(lv, VVec) else lv
